@@ -26,9 +26,9 @@ MANIFEST = dict(
          "carrying this sub-command's per-type header for every listing; the glob and first-line recognisers are proved equal to "
          "declarative decompositions; the clean-up follows the last rename (C17_clean_follows_writes: once a superseded entry is gone the "
          "op prefix holds every output's complete transaction) and judges a file by its first line only, for every file CONTENT "
-         "(C17_clean_content_header, C17_first_line_decides). One finding region F_glob_dir (Clean's glob pattern holds the unescaped [dir] "
-         "argument: ?, *, [..] in the path make it delete generated files of OTHER directories; witness theorem, replayed on every run; a "
-         "repair is proposed); two earlier defects were repaired in /repo. Tied to the code by theorems over regenerated tables (every "
+         "(C17_clean_content_header, C17_first_line_decides). No finding region is left: three defects were repaired in /repo, the last one F_glob_dir (Clean's glob pattern held the "
+         "unescaped [dir] argument: ?, *, [..] in the path made it delete generated files of OTHER directories; a3d970c) - now "
+         "C17_clean_removes_inside_pkgdir for every configuration, and two checkouts below w?/ and w1/ as a regression scenario on every run. Tied to the code by theorems over regenerated tables (every "
          "file-mutating os call; the ORDER of the phase calls in main.main - Clean once, after the write loop, called from nowhere else; "
          "the one place Clean's helpers read file content: one ReadString outside any loop), by an in-process differential of the model's Clean against the real Clean on real "
          "directories (verif hook), and by strace: syscall sequence vs the model's ops, SIGKILL at every write/rename/unlink, right after "
@@ -1057,7 +1057,8 @@ def run(ctx, obl):
     if not strace_ok(ctx):
         ctx.notes.append("ptrace/strace unavailable: syscall-sequence comparison and SIGKILL injection at syscalls were skipped; "
                          "timed kills, reader and directory-diff legs decided")
-    # the [dir] argument holds a glob metacharacter (finding F_glob_dir): one sub-command per quick run, all four in the thorough tier
+    # the [dir] argument holds a glob metacharacter (former finding F_glob_dir, repaired in /repo a3d970c; regression scenario: the
+    # OTHER checkout the path would match as a pattern stays untouched): one sub-command per quick run, all four in the thorough tier
     gcases, gimpl = [], {}
     for gi, gcmd in enumerate([cligen.CMDS[ctx.seed % 4]] if ctx.quick() else cligen.CMDS):
         gc, gim = clileg.glob_dir_case(ctx, gcmd, "g%d" % gi)
